@@ -172,6 +172,16 @@ Definition clone_ok (c : ctx) (md : msgdef) (m : message) : bool :=
   same_field Common_BeginString (m_hdr m) (m_hdr t) &&
   list_eqb (m_type m) (md_type md).
 
+(* ------------------------------------------------------------------ move_legal *)
+(* no recursion: the group elements are handed over as they are.  Beyond local_ok / target_ok:
+   every present group field has its _groups entry (a message decoded from "NoX=0" has none:
+   move_legal then dereferences _groups.end()), and every non-empty group belongs to a present
+   group field (otherwise it stays behind). *)
+Definition move_ok (s t0 : mbase) : bool :=
+  local_ok s t0 && target_ok t0 &&
+  forallb (fun tr => negb (t_present tr && t_group tr) || is_some (map_find (t_fnum tr) (mb_groups s))) (mb_fp s) &&
+  forallb (fun g => is_nil (snd g) || group_owned (mb_fp s) (fst g)) (mb_groups s).
+
 (* ------------------------------------------------------------------ the observed object of a model object *)
 Fixpoint obj_of (m : mbase) : obj :=
   match m with
